@@ -427,7 +427,8 @@ def global_comments(draw, sep_chars=False):
     x = draw(st.integers(0, 5))
     if x < 2:
         key = draw(st.sampled_from(['COM', 'OTL', 'OPR', 'ENC', 'voices', 'COM2']))
-        t = '!!!' + key + ': ' + draw(free_texts(sep_chars=sep_chars))
+        # (the record body follows a blank or - as many encoders write it - a tab: a global comment is the whole line)
+        t = '!!!' + key + draw(st.sampled_from([': ', ': ', ':\t', ': a\t'])) + draw(free_texts(sep_chars=sep_chars))
     elif x < 4:
         t = '!!' + draw(free_texts(sep_chars=sep_chars))
     elif x == 4:
